@@ -1,6 +1,12 @@
 package main
 
-import "flag"
+import (
+	"flag"
+	"io"
+
+	"github.com/z7zmey/php-parser/pkg/ast"
+	"github.com/z7zmey/php-parser/pkg/visitor/printer"
+)
 
 var verbose *bool
 var level int
@@ -36,5 +42,13 @@ func collector(in <-chan int, out chan<- msg) {
 		buf = buf[:0]
 		buf = append(buf, v)
 		out <- msg{items: buf}
+	}
+}
+
+// bad (visitor-per-item): one printer for every tree, its mode and last chunk survive from tree to tree
+func printAll(in <-chan *ast.Root) {
+	p := printer.NewPrinter(io.Discard)
+	for r := range in {
+		r.Accept(p)
 	}
 }
